@@ -1,5 +1,6 @@
 import HgVerif.Model.Reduce
 import HgVerif.Model.ReduceInc
+import HgVerif.Model.ReduceKeyed
 import HgVerif.Model.Slots
 import HgVerif.Driver.Proto
 /-! Model driver for C11: same line protocol as `harness/drv_reduce.cpp`.
@@ -11,14 +12,20 @@ of `Props/C11Inc.lean` are about; their structural part is `Reduce.evalStructure
 the combiner evaluations of the cycle (what the logging node combiner of the harness records).  The
 driver adds only the bookkeeping of the surrounding graph: the replayed source collection (for a TSD
 the slot store of `Model/Slots.lean`, the C05 model, because the node visits removed / added /
-modified keys in SLOT order), the zero input, and which cycles tick. -/
-open HgVerif.Reduce HgVerif.ReduceInc HgVerif.Driver
+modified keys in SLOT order), the zero input, and which cycles tick.
+
+Kinds with the suffix `:s` (elements and result `TSS<Int>`, combiner set union) run
+`ReduceKeyed.cycleK` — `cycleG` with `unionL` plus the keyed publication (`beginKeyed` / `finishPub`) the
+theorems of `Props/C11Keyed.lean` are about; the line shows the published DELTA (`rec=`) and value. -/
+open HgVerif.Reduce HgVerif.ReduceInc HgVerif.ReduceKeyed HgVerif.Driver
 
 inductive ZeroCfg where
   | none | ts | const (v : Int)
 
 structure Cfg where
   kind : String := "tsd"      -- tsd | dtsl | tsl
+  elem : String := "i"        -- i: TS<Int>; s: TSS<Int> (keyed result); d: TSD<Int,TS<Int>> (not modelled)
+  zeroSet : List Int := []    -- the scalar zero of a :s kind
   size : Nat := 0
   comb : String := "add"
   zero : ZeroCfg := .none
@@ -35,6 +42,11 @@ structure DS where
   cycle : Nat := 0
   out : Option Int := none
   tail : String := " n=- comb=- ngc=-"
+  -- keyed kinds
+  kst : KSt Int Int := {}
+  ksrc : List (Int × List Int) := []
+  kzero : Option (List Int) := none
+  kout : String := "none"
 
 def combFn (c : String) : Int → Int → Int :=
   match c with
@@ -48,6 +60,29 @@ def srcDel (src : List (Int × Int)) (k : Int) : List (Int × Int) := src.filter
 
 inductive Op where
   | set (k v : Int) | del (k : Int) | tick | z (v : Int)
+  | kset (k : Int) (v : List Int) | kz (v : List Int)
+
+/-- ascending, duplicate-free -/
+def insertUniq (x : Int) : List Int → List Int
+  | [] => [x]
+  | y :: ys => if x < y then x :: y :: ys else if x == y then y :: ys else y :: insertUniq x ys
+def canonSet (l : List Int) : List Int := l.foldl (fun acc x => insertUniq x acc) []
+
+/-- "1,2,3" | "-" -/
+def parseSetTok (t : String) : Option (List Int) :=
+  if t == "-" then some []
+  else (t.splitOn ",").foldl (fun acc w => do let a ← acc; let v ← w.toInt?; pure (a ++ [v])) (some []) |>.map canonSet
+
+def parseKOps : List String → Option (List Op)
+  | [] => some []
+  | "set" :: k :: v :: rest => do
+      let k ← k.toInt?; let v ← parseSetTok v; let r ← parseKOps rest; pure (.kset k v :: r)
+  | "del" :: k :: rest => do let k ← k.toInt?; let r ← parseKOps rest; pure (.del k :: r)
+  | "z" :: v :: rest => do let v ← parseSetTok v; let r ← parseKOps rest; pure (.kz v :: r)
+  | "tick" :: rest => do let r ← parseKOps rest; pure (.tick :: r)
+  | _ => none
+
+def showSet (l : List Int) : String := "[" ++ ",".intercalate ((canonSet l).map toString) ++ "]"
 
 def parseOps : List String → Option (List Op)
   | [] => some []
@@ -161,18 +196,95 @@ def cycleStep (d : DS) (ops : List Op) : DS × String :=
               cycle := d.cycle + 1, out := out, tail := tail },
      s!"rec={rec_} out={showOut out} mod={b2s mod}{tail}{showEvals cfg evs}")
 
-def parseCfg (k c z : String) : Option Cfg := do
+def ksrcGet (src : List (Int × List Int)) (k : Int) : Option (List Int) := (src.find? (·.1 == k)).map (·.2)
+def ksrcSet (src : List (Int × List Int)) (k : Int) (v : List Int) : List (Int × List Int) :=
+  src.filter (·.1 != k) ++ [(k, v)]
+
+/-- one engine cycle of a `:s` kind -/
+def kcycleStep (d : DS) (ops : List Op) : DS × String :=
+  if d.bad then (d, "err:invalid-argument") else
+  if d.cfg.kind == "tsl" && (match d.cfg.zero with | .ts => true | _ => false) then (d, "err:resolution") else
+  if d.cfg.elem != "s" then (d, "err:unmodelled") else
+  let cfg := d.cfg
+  let list := cfg.kind != "tsd"
+  let sets := ops.filterMap fun o => match o with | .kset k v => some (k, v) | _ => none
+  let dels := if list then [] else ops.filterMap fun o => match o with | .del k => some k | _ => none
+  let effectiveDel := dels.any fun k => (ksrcGet d.ksrc k).isSome
+  let collTick := !sets.isEmpty || effectiveDel
+  -- the live zero: a `z` op replays the difference to the zero's previous value
+  let zNew := match cfg.zero with
+    | .ts => ops.foldl (fun acc o => match o with | .kz v => some v | _ => acc) d.kzero
+    | .const _ => some cfg.zeroSet
+    | .none => none
+  -- an empty set delta replayed into a VALID zero is no tick
+  let zTick := match cfg.zero with
+    | .ts => (ops.any fun o => match o with | .kz _ => true | _ => false) && zNew != d.kzero
+    | .const _ => d.cycle == 0
+    | .none => false
+  let zOld := (d.kzero).getD []
+  let zDelta := match zNew with | some v => (diffL v zOld, diffL zOld v) | none => ([], [])
+  let src1 := dels.foldl (fun s k => s.filter (·.1 != k)) d.ksrc
+  let src2 := sets.foldl (fun s kv => ksrcSet s kv.1 kv.2) src1
+  -- the element of a key ticks when it is new or its value changes (an empty element delta is no tick)
+  let changedKeys := (sets.filter fun kv => ksrcGet d.ksrc kv.1 != ksrcGet src2 kv.1).map (·.1)
+  let setKeys := changedKeys.foldl (fun acc k => if acc.contains k then acc else insertKeySorted k acc) []
+  let hz := hasZero cfg
+  let collTicked := d.collTicked || collTick
+  let available := list || collTicked
+  let now := d.cycle + 1
+  let tsd := if list || !collTick then d.tsd else
+    let t1 := dels.foldl (fun x k => (x.erase now k).1) d.tsd
+    let t2 := setKeys.foldl (fun x k => x.set now k 0) t1
+    t2.touchOp now
+  let primed := d.kst.g.tree.primed
+  let removed := if list || !collTick then [] else tsd.removedAt now
+  let modifiedKeys := if !collTick then [] else if list then setKeys else (tsd.modifiedItemsAt now).map (·.1)
+  let addedKeys := if list || !collTick then [] else tsd.addedAt now
+  let allValid := if list then (src2.map (·.1)).foldl (fun acc k => insertKeySorted k acc) [] else tsd.validKeys
+  let present := if !primed then allValid else addedKeys ++ modifiedKeys
+  let inp : CycleIn Int (List Int) :=
+    { now := now, available := available, collEvent := collTick, zeroEvent := zTick, removed := removed,
+      present := present, ticked := modifiedKeys, src := ksrcGet src2, zero := zNew }
+  let kin : KIn Int Int :=
+    { inp := inp
+      srcOld := ksrcGet d.ksrc
+      elemDelta := fun k =>
+        let o := (ksrcGet d.ksrc k).getD []
+        let n := (ksrcGet src2 k).getD []
+        (diffL n o, diffL o n)
+      zeroDelta := zDelta }
+  let r := if collTick || zTick then cycleK true hz d.kst kin else idleK hz d.kst kin
+  let tree := r.st.g.tree
+  let o := r.obs
+  let rec_ := if o.valid && o.modified then "{added=" ++ showSet o.added ++ ";removed=" ++ showSet o.removed ++ "}" else "-"
+  let out := if o.valid then showSet o.value else "none"
+  let tail := s!" n={tree.keys.length} comb={combinerCount tree} ngc={nestedGraphCount tree}"
+  ({ d with kst := r.st, ksrc := src2, kzero := zNew, tsd := tsd, collTicked := collTicked, cycle := d.cycle + 1,
+            kout := out, tail := tail },
+   s!"rec={rec_} out={out} mod={b2s o.modified}{tail} ev=-")
+
+def parseCfg (k0 c z : String) : Option Cfg := do
+  let (k, elem) ←
+    if k0.endsWith ":s" then some (String.ofList (k0.toList.take (k0.length - 2)), "s")
+    else if k0.endsWith ":d" then some (String.ofList (k0.toList.take (k0.length - 2)), "d")
+    else some (k0, "i")
   let (kind, size) ←
     if k == "tsd" || k == "dtsl" then some (k, 0)
     else if k.startsWith "tsl" then
       match (k.drop 3).toNat? with
-      | some n => if 1 ≤ n && n ≤ 64 then some ("tsl", n) else none
+      | some n => if 1 ≤ n && n ≤ 64 && elem != "d" then some ("tsl", n) else none
       | none => none
     else none
-  let comb ← if c == "add" || c == "graph" || c == "node" || c == "max" then some c else none
-  let zero ← if z == "none" then some ZeroCfg.none else if z == "ts" then some ZeroCfg.ts
-             else (z.toInt?).map ZeroCfg.const
-  pure { kind := kind, size := size, comb := comb, zero := zero }
+  let comb ← if elem == "i" && (c == "add" || c == "graph" || c == "node" || c == "max") then some c
+             else if elem != "i" && (c == "union" || c == "ugraph") then some c else none
+  let (zero, zeroSet) ←
+    if z == "none" then some (ZeroCfg.none, [])
+    else if z == "ts" then some (ZeroCfg.ts, [])
+    else if elem == "s" && z.startsWith "e" then
+      (parseSetTok (if z.length > 1 then String.ofList (z.toList.drop 1) else "-")).map fun l => (ZeroCfg.const 0, l)
+    else if elem == "i" then (z.toInt?).map fun v => (ZeroCfg.const v, [])
+    else none
+  pure { kind := kind, elem := elem, zeroSet := zeroSet, size := size, comb := comb, zero := zero }
 
 def step (d : DS) (ws : List String) : DS × String :=
   match ws with
@@ -182,12 +294,19 @@ def step (d : DS) (ws : List String) : DS × String :=
     | some cfg => ({ cfg := cfg }, "ok")
     | none => ({ cfg := d.cfg, bad := true }, "bad-op")
   | "c" :: rest =>
+    if d.cfg.elem != "i" then
+      match parseKOps rest with
+      | some ops => kcycleStep d ops
+      | none => (reset d, "bad-op")
+    else
     match parseOps rest with
     | some ops => cycleStep d ops
     | none => (reset d, "bad-op")
   | ["run"] =>
     if d.bad then (reset d, "err:invalid-argument")
     else if unresolvable d.cfg then (reset d, "err:resolution")
+    else if d.cfg.elem == "d" then (reset d, "err:unmodelled")
+    else if d.cfg.elem == "s" then (reset d, s!"end out={d.kout}{d.tail}")
     else (reset d, s!"end out={showOut d.out}{d.tail}")
   | [] => (reset d, "")
   | _ => (reset d, "bad-op")
